@@ -13,10 +13,11 @@ import tgen
 PROP = "C15"
 LEVEL = "proof"
 GEN_UNITS = ["GenUtils"]      # wave 4: Props/C15w4.v states NEW symmetrize / issymmetric over the generated tt_ind2sub / tt_sub2ind
-COQ_TARGETS = ["Props/C15.vo", "Props/C15w4.vo", "Model/C15Inst.vo", "Model/C15K.vo", "Model/C08Inst.vo", "Model/Harness.vo"]
-THEOREM_FILES = ["Props/C15.v", "Props/C15w4.v"]
+COQ_TARGETS = ["Props/C15.vo", "Props/C15w4.vo", "Props/C15w5.vo", "Model/C15Inst.vo", "Model/C15KLoopInst.vo", "Model/C15K.vo", "Model/C08Inst.vo",
+               "Model/Harness.vo"]
+THEOREM_FILES = ["Props/C15.v", "Props/C15w4.v", "Props/C15w5.v"]
 COQ_IMPORTS = ("From Coq Require Import List ZArith QArith Qcanon Bool.\n"
-               "From PV Require Import Base.Index Np.Array Model.Repr Model.Harness Model.C15Sym Model.C15Impl Model.C15K Model.C15KSym Model.C15Inst Model.C08Inst.\n")
+               "From PV Require Import Base.Index Np.Array Model.Repr Model.Harness Model.C15Sym Model.C15Impl Model.C15K Model.C15KSym Model.C15Inst Model.C15KLoop Model.C15KLoopInst Model.C08Inst.\n")
 RULE = ("shapes (2,3,3), (3,2,3,2), (2,3,3,2), (3,2,2,3), (2,2,2,2), (3,3,3), (2,2), (3,3), (2,2,3) ...; EVERY choice of one group "
         "(>= 2 modes of equal size) or two disjoint groups of equal length (mode sizes may differ BETWEEN groups), proper subsets "
         "included, group members also listed out of order; non-symmetric integer data, exactly symmetric data, almost-symmetric "
@@ -36,17 +37,27 @@ RULE = ("shapes (2,3,3), (3,2,3,2), (2,3,3,2), (3,2,2,3), (2,2,2,2), (3,3,3), (2
         "held as int64 / int32 / int16 / int8 / float32 arrays; "
         "ktensor.issymmetric on stored factors that are identical / differ in one entry / one column sign / shape, with and without "
         "the difference matrix; the transliteration is executed on every basic-stream input of the NEW "
-        "versions and must give pyttb's tensor / boolean; non-trivial = data not symmetric in the groups or the group is a proper subset")
-CORRESPONDENCE_ONLY = ["ktensor.symmetrize on factors that are NOT identical but have proportional columns (stored with scrambled column signs / "
-                       "scalings): that pyttb's normalize('all') turns them into factors agreeing up to column signs — the hypothesis of theorems "
-                       "C15_ksym_keeps / C15_ksym_keeps_rational — is evaluated on pyttb's own normalize('all') result per case (for IDENTICAL "
-                       "factors it is a theorem: C15_ksym_identical_input_keeps composes the body with C08's normalize model); the tie of "
-                       "pyttb's normalize to its model k_normalize is C08's correspondence, the tie of the body is the per-case comparison here",
+        "versions and must give pyttb's tensor / boolean; wave 5: SEVERAL groups whose number differs from their length (three groups of "
+        "two modes, two groups of three modes of 6-way tensors; mode sizes equal or different between the groups); stored arrays of type "
+        "uint8 / uint16 / uint32 / uint64 / int8 / int16 with values at the ends of the range and logical arrays (both operations, both "
+        "versions, with / without details: open findings C15-N1, C15-N2); Kruskal requests that must be refused (not cubical, receiver "
+        "untouched); odd-order Kruskal tensors whose columns disagree with mode 0 in exactly two modes; the body of ktensor.symmetrize AS "
+        "WRITTEN (loops with in-place updates) is executed on pyttb's normalize('all') result and must give pyttb's weights / factors and "
+        "the closed form exactly; non-trivial = data not symmetric in the groups or the group is a proper subset")
+CORRESPONDENCE_ONLY = ["ktensor.symmetrize: the tie of pyttb's normalize('all') to C08's model k_normalize / loops py_normalize is C08's correspondence "
+                       "(here: the transliterated body is executed on pyttb's OWN normalize('all') result of every case, and that result is "
+                       "checked to have the signed-copy form theorem C15_ksym_normalize_signed_copies predicts for factors with proportional "
+                       "columns); the N-th root / 2-norm oracles of the end-to-end theorems are not executable over Qc",
                        "tensor.permute inside the OLD versions is modelled by its effect on subscripts (permuted X p i = X (put p i i); C07 "
                        "owns permute), accumarray / np.maximum / np.abs / np.max by their mathematical meaning",
                        "numpy / numpy_groupies primitives used by the code-level transliteration Model/C15Lin.v (np.sort on a row, fancy "
-                       "indexing, aggregate) are modelled by hand, tied by executing the transliteration on the generated inputs"]
-ASSUMPTIONS = ["the average is taken in exact rational arithmetic; pyttb's float result must lie within 1e-9 relative",
+                       "indexing, aggregate) are modelled by hand, tied by executing the transliteration on the generated inputs; the "
+                       "ACCUMULATOR TYPE numpy_groupies.aggregate picks for non-float64 data is outside the model (open finding C15-N2)",
+                       "element types other than float64 (int8 ... uint64, bool, float32): the models compute over Z / Qc; the stream "
+                       "compares pyttb's answers on such arrays with the exact ones (open findings C15-N1, C15-N2)"]
+ASSUMPTIONS = ["C15_ksym_normalize_signed_copies / C15_ksym_proportional_keeps assume of the norm oracle: nrm (c . l) = nrm l * c or nrm l * (-c) "
+               "(absolute homogeneity, true of every p-norm), besides C08's oracle hypotheses",
+               "the average is taken in exact rational arithmetic; pyttb's float result must lie within 1e-9 relative",
                "old-version symmetrize's max-fix is modelled with a max that satisfies max a a = a (theorem C15_sym_old holds for any such max)",
                "C15_ksym_keeps assumes of the oracle 'x < 0' only: a sum of squares is not negative, and if minus a sum of squares is not "
                "negative either every term is zero (both proved for the exact test over Qc: C15_ksym_keeps_rational has no assumption)",
@@ -64,6 +75,15 @@ EXPLANATION = ("Theorems (all shapes, groups, values of a commutative ring; char
                "checks -> Err) equal the container model with no hypothesis on the values, and on this transliteration: returns the "
                "average, passes the test, idempotent, keeps a symmetric tensor (same container), test exact, refusals; "
                "ktensor.issymmetric = all stored factors identical, sound, and always passed by ktensor.symmetrize's result. "
+               "Wave 5 (Props/C15w5.v): ktensor.symmetrize END TO END on the code as written — Model/C15KLoop.v transliterates the method "
+               "statement by statement (cubical assertion -> refusal; normalize('all') = C08's loops py_normalize; alignment loop with in-place "
+               "column flips and weight toggles, the test read from the current state; V = V + fmi; V / N; odd-order repair loop): the loops "
+               "EQUAL the closed form k15_core as Kruskal tensors for every input with m x R factors (C15_ksym_loop), the whole method = "
+               "closed-form body after C08's normalize model (C15_ksym_code_is_model), non-cubical requests are refused, every answer has N "
+               "identical factors, is symmetric in all modes and passes ktensor.issymmetric, identical factors keep their value on the code "
+               "as written; factors with PROPORTIONAL columns (B.diag(c_k), scalars non-zero: scrambled signs / scalings) are turned by "
+               "normalize('all') into signed copies of one matrix (C15_ksym_normalize_signed_copies; oracle: the norm is absolutely "
+               "homogeneous) and keep their value (C15_ksym_proportional_keeps, C15_ksym_code_proportional_keeps). "
                "All transliterations are additionally executed and compared with the spec / with pyttb on every generated input.")
 
 
@@ -182,6 +202,43 @@ def subgroup_int(shape, data, g, kind, rng):
     return out
 
 
+# element types of the stored array: (bits, signed) for the integer / logical types (None = a float type)
+DTYPES = {"int64": (64, True), "int32": (32, True), "int16": (16, True), "int8": (8, True), "uint8": (8, False),
+          "uint16": (16, False), "uint32": (32, False), "uint64": (64, False), "bool": (1, False), "float32": None, "float16": None}
+
+
+def eff_dtype(a):
+    """the element type build_tensor really gives the stored array (None = float64): the requested one only for plainly built
+    tensors with integer data, and only when the cast changes no value (otherwise int64)"""
+    dt = a.get("dtype")
+    if not dt or a.get("via_perm") or a.get("layout", "F") != "F" or a.get("bump") or a.get("scale"):
+        return None
+    vals = [int(x) for x in a["data"]]
+    info = DTYPES[dt]
+    if dt == "bool":
+        return dt if all(x in (0, 1) for x in vals) else "int64"
+    if info is None:
+        return dt if max(abs(x) for x in vals) <= 100 else "int64"
+    bits, signed = info
+    lo, hi = (-(2 ** (bits - 1)), 2 ** (bits - 1) - 1) if signed else (0, 2 ** bits - 1)
+    return dt if all(lo <= x <= hi for x in vals) and max(abs(x) for x in vals) < 2 ** 52 else "int64"
+
+
+def sym_pick(shape, data, groups):
+    """symmetric data WITHOUT arithmetic (stays inside the value range of narrow element types): every entry takes the value of
+    its class exemplar (subscripts sorted inside each group)"""
+    subs = tgen.all_subs(shape)
+    pos = {tuple(s_): k for k, s_ in enumerate(subs)}
+    out = []
+    for s_ in subs:
+        t = list(s_)
+        for g in groups:
+            for m, v in zip(sorted(g), sorted(s_[m] for m in g)):
+                t[m] = v
+        out.append(data[pos[tuple(t)]])
+    return out
+
+
 LAYOUTS = ["C", "Cnocopy", "assignC", "strided", "assignview", "grow_elem", "grow_elem_rev", "grow_corner", "grow_block"]
 # wave 4 (lead's input class): "grow_*" = the tensor is GROWN by pyttb's own out-of-bounds assignment (filled element by element
 # from an empty ttb.tensor(), one corner entry past the last mode, a block past the last mode): pyttb then holds C-contiguous data
@@ -281,6 +338,7 @@ def gen_cases(rng, tier):
                 cases.append(Case("ksymmetrize", {"w": w, "f": f, "kind": kind}, True))
     cases += gen_w3(rng, big)
     cases += gen_w4(rng, big)
+    cases += gen_w5(rng, big)
     rng.shuffle(cases)          # spreads the expensive (rational) cases evenly over the coqc shards
     return cases
 
@@ -349,6 +407,79 @@ def gen_w4(rng, big):
                 for diffs in (False, True):
                     cases.append(Case("kissym", {"w": w, "f": f, "kind": kind, "diffs": diffs,
                                                  "klayout": rng.choice(["F", "C", "assignC"])}, kind != "same"))
+    return cases
+
+
+def gen_w5(rng, big):
+    """wave 5: (a) SEVERAL groups whose number differs from their length — three groups of two modes, two groups of three modes
+    (6-way tensors), mode sizes equal or different between the groups, groups and members in arbitrary order; (b) element types
+    with a narrow or unsigned value range and logical data (uint8 / uint16 / uint32 / uint64 / int8 / int16 / bool, values up to the
+    ends of the range: a difference of two entries does not fit the type), non-symmetric / symmetric / almost symmetric, both
+    versions, with and without details; (c) Kruskal requests symmetrize must refuse (not cubical) and more odd orders"""
+    cases = []
+    combos = [(None, False), (1, False), (None, True), (1, True)]
+    multi = [((2, 2, 2, 2, 2, 2), [[0, 1], [2, 3], [4, 5]]), ((2, 2, 2, 2, 2, 2), [[0, 1, 2], [3, 4, 5]]),
+             ((2, 2, 2, 2, 2, 2), [[5, 0], [4, 1], [2, 3]]), ((2, 2, 3, 3, 2, 2), [[0, 1], [2, 3], [4, 5]]),
+             ((3, 2, 2, 3, 2), [[0, 3], [1, 2]]), ((2, 3, 2, 3, 2, 2), [[0, 2], [3, 1], [5, 4]]),
+             ((2, 2, 2, 2, 2), [[0, 4], [1, 3]]), ((2, 2, 2, 3), [[0], [1], [2]]), ((2, 2, 2, 3), [[0, 1, 2], ]),
+             ((3, 3, 3, 2, 2, 2), [[0, 1, 2], [3, 4, 5]]), ((2, 3, 2, 3, 2, 3), [[4, 0, 2], [1, 5, 3]])]
+    for shape, groups0 in multi:
+        n = math.prod(shape)
+        for rep in range(2 if big else 1):
+            groups = groups0 if rep == 0 else [rng.sample(g, len(g)) for g in rng.sample(groups0, len(groups0))]
+            base = {"shape": list(shape), "grps": groups, "w3": 1}
+            data = [rng.randint(-4, 5) for _ in range(n)]
+            sdata = sym_pick(shape, [rng.randint(-3, 3) for _ in range(n)], groups)
+            adata = list(sdata)
+            adata[rng.randrange(n)] += 1
+            if n <= 144:
+                for version in (None, 1):
+                    cases.append(Case("symmetrize", dict(base, data=data, version=version), True))
+                cases.append(Case("symmetrize", dict(base, data=sdata, version=rng.choice([None, 1])), True))
+            for d in (data, sdata, adata):
+                for version, details in (combos if n <= 144 else combos[:2]):
+                    cases.append(Case("issymmetric", dict(base, data=d, version=version, details=details), True))
+    # element types
+    ranges = {"uint8": (0, 255), "uint16": (0, 65535), "uint32": (0, 2 ** 32 - 1), "uint64": (0, 2 ** 40), "int8": (-128, 127),
+              "int16": (-32768, 32767), "bool": (0, 1)}
+    for shape, groups in (((3, 3), [[0, 1]]), ((2, 3, 3), [[1, 2]]), ((2, 2, 2), [[0, 1, 2]]), ((2, 2, 3, 3), [[0, 1], [2, 3]]),
+                          ((3, 2, 3), [[2, 0]])):
+        n = math.prod(shape)
+        for dt in (sorted(ranges) if big else ["uint8", "bool", "int8"] + rng.sample(["uint16", "uint32", "uint64", "int16"], 1)):
+            lo, hi = ranges[dt]
+            def draw():
+                r = rng.random()
+                return lo if r < 0.15 else hi if r < 0.3 else rng.randint(lo, hi) if r < 0.7 else rng.randint(lo, min(hi, lo + 5))
+            data = [draw() for _ in range(n)]
+            sdata = sym_pick(shape, [draw() for _ in range(n)], groups)
+            adata = list(sdata)
+            k = rng.randrange(n)
+            adata[k] = adata[k] + 1 if adata[k] < hi else adata[k] - 1
+            base = {"shape": list(shape), "grps": groups, "w3": 1, "dtype": dt}
+            for version in (None, 1):
+                cases.append(Case("symmetrize", dict(base, data=data, version=version), True))
+            cases.append(Case("symmetrize", dict(base, data=sdata, version=rng.choice([None, 1])), True))
+            for d in (data, sdata, adata):
+                for version, details in combos:
+                    cases.append(Case("issymmetric", dict(base, data=d, version=version, details=details), True))
+    # Kruskal tensors that are not cubical: refused by the assertion, the receiver untouched
+    for sizes in ((2, 3), (3, 2), (2, 2, 3), (3, 2, 2), (2, 3, 2), (2, 2, 2, 3), (1, 2), (3, 3, 3, 1)):
+        for R in ((1, 2, 3) if big else (rng.choice([1, 2]),)):
+            f = [[[rng.randint(-3, 3) for _ in range(R)] for _ in range(m)] for m in sizes]
+            cases.append(Case("ksym_reject", {"w": [rng.choice([-2, -1, 1, 2]) for _ in range(R)], "f": f}, True))
+    # odd orders with columns that disagree with mode 0 in an EVEN number (>= 2) of the other modes (the weight must come back
+    # with its sign: two toggles), and in an odd number; orders 3 and 5, negative and positive weights
+    for N, m in ((3, 2), (3, 3), (5, 2)):
+        for rep in range(3 if big else 2):
+            R = rng.choice([1, 2, 3])
+            A = [[rng.choice([-3, -2, -1, 1, 2, 3]) for _ in range(R)] for _ in range(m)]
+            cs = [[1] * R] + [[rng.choice([1, -1]) for _ in range(R)] for _ in range(N - 1)]
+            flips = rng.sample(range(1, N), 2)                         # component 0: exactly two modes flipped
+            for k in range(1, N):
+                cs[k][0] = -1 if k in flips else 1
+            f = [[[x * cs[k][r] for r, x in enumerate(row)] for row in A] for k in range(N)]
+            w = [rng.choice([-3, -2, 2, 3]) for _ in range(R)]
+            cases.append(Case("ksymmetrize", {"w": w, "f": f, "kind": "scrambled", "klayout": "F", "pre": None}, True))
     return cases
 
 
@@ -521,9 +652,8 @@ def build_tensor(ttb, np, a):
         return ttb.tensor(np.ascontiguousarray(arr), copy=False)
     if lay == "strided":
         return ttb.tensor(view, copy=False)
-    if a.get("dtype") and lay == "F" and not a.get("bump") and not a.get("scale"):
-        dt = a["dtype"] if max(abs(x) for x in vals) <= 100 else "int64"       # never let the cast change a value
-        return ttb.tensor(np.asfortranarray(arr.astype(dt)), copy=True)
+    if eff_dtype(a):                                   # never lets the cast change a value
+        return ttb.tensor(np.asfortranarray(arr.astype(eff_dtype(a))), copy=True)
     T = tgen.mk_tensor(ttb, np, shape, vals)
     if lay == "assignC":
         T.data = np.ascontiguousarray(arr)
@@ -561,6 +691,16 @@ def run_impl(c):
                 out["again"] = tgen.obs_ktensor(np, S2)
                 out["issym2"] = bool(S2.issymmetric())
             return out
+        if c.op == "ksym_reject":
+            R = len(a["w"])
+            fs = [np.array(A, dtype=float).reshape((len(A), R)) for A in a["f"]]
+            K = ttb.ktensor(fs, np.array(a["w"], dtype=float), copy=True)
+            before = K.copy()
+            try:
+                S = K.symmetrize()
+            except Exception as ex:
+                return {"raised": type(ex).__name__, "msg": str(ex)[:200], "intact": bool(K.isequal(before))}
+            return {"answered": tgen.obs_ktensor(np, S)}
         if c.op == "kissym":
             R = len(a["w"])
             fs = [np.asfortranarray(np.array(A, dtype=float).reshape((len(A), R))) for A in a["f"]]
@@ -614,7 +754,8 @@ def run_impl(c):
                    "repeat_same": bool(S.shape == Sr.shape and np.array_equal(S.data, Sr.data))}
             # writing into the returned tensor must not change the receiver (an already symmetric receiver "keeps its value")
             before = np.array(T.data, copy=True)
-            S.data[(0,) * S.data.ndim] += 1.0
+            z = (0,) * S.data.ndim
+            S.data[z] = 1 if S.data[z] == 0 else 0       # (a changed value that fits every element type)
             out["receiver_intact"] = bool(np.array_equal(T.data, before))
             return out
         if c.op == "issymmetric":
@@ -651,6 +792,9 @@ def coq_check(c, o):
         # pyttb refuses (AssertionError) exactly where the transliteration over the generated helpers says Err
         T = tgen.gqdense(a["shape"], a["data"])
         return f"q_code_rejects {T} {gnmat(a['grps'])} && {gb(o.get('raised') == 'AssertionError')}"
+    if c.op == "ksym_reject":
+        # pyttb refuses (AssertionError) exactly where the transliterated assertion of Model/C15KLoop.v fails
+        return f"k_code_refuses {gnlist([len(A) for A in a['f']])} && {gb(o.get('raised') == 'AssertionError' and o.get('intact') is True)}"
     if c.op == "kissym":
         K = tgen.gktensor(a["w"], a["f"])
         N = len(a["f"])
@@ -684,10 +828,12 @@ def coq_check(c, o):
             f1 = [[[Fraction(x) for x in row] for row in A] for A in k1["factors"]]
             dots = [sum(f1[0][x][j] * f1[n_][x][j] for x in range(len(f1[0]))) for n_ in range(1, len(f1)) for j in range(len(a["w"]))]
             if all(abs(d) >= Fraction(1, 10 ** 6) for d in dots):
-                model = f" && q_k15_matches {c08.gqk(k1['weights'], k1['factors'])} O"
+                # wave 5: the body AS WRITTEN (Model/C15KLoop.v: in-place column flips, weight toggles, accumulation, odd-order
+                # loop) is executed; it must reproduce pyttb's result and equal the closed form k15_core exactly
+                model = f" && q_k15_loop_matches {c08.gqk(k1['weights'], k1['factors'])} O"
             if a["kind"] in ("symmetric", "scrambled"):     # the hypothesis of theorem C15_ksym_keeps holds for the normalised input
                 model += f" && q_k15_signed_copies {c08.gqk(k1['weights'], k1['factors'])}"
-        return (f"let O := {O} in q_mats_identical (kfactors O) && Nat.eqb (length (kfactors O)) {len(a['f'])} && "
+        return (f"let O := {O} in negb (k_code_refuses {shp}) && q_mats_identical (kfactors O) && Nat.eqb (length (kfactors O)) {len(a['f'])} && "
                 f"nvec_eqb (kshape O) {shp} && q_k_symmetric {shp} O && {gb(o['issym'])}{keep}{again}{model}")
     if c.op == "chain":
         if not all(finite(o[k]["data"]) for k in ("S", "P", "S3")):
@@ -776,7 +922,7 @@ def oracle(c, o):
         if "exc" in o:
             return f"ktensor.issymmetric raised {o['exc']}"
         return None if o["ok"] == same else f"ktensor.issymmetric answered {o['ok']} on factors that are {'identical' if same else 'not identical'}"
-    if c.op == "sym_reject":
+    if c.op in ("sym_reject", "ksym_reject"):
         return None         # the property text does not speak about refusals: a mismatch here is a model / code disagreement
     if "exc" in o:
         return f"admissible request raised {o['exc']}: {o.get('msg')}"
@@ -857,3 +1003,97 @@ def oracle(c, o):
     if not o.get("receiver_intact", True):
         return "writing to the returned tensor changed the receiver: the result shares its data with the (already symmetric) input"
     return None
+
+
+# ----------------------------------------------------------------------------------------------------------------
+# known finding C15-N1 (wave 5): the OLD symmetry test subtracts in the element type of the stored array
+def _np_abs_max_wrapped(pairs, bits, signed):
+    """what np.max(np.abs(x - y)) gives in a (bits, signed) integer type (pure python simulation of the wrap-around)"""
+    out = None
+    for x, y in pairs:
+        d = (x - y) % (2 ** bits)
+        if signed:
+            if d >= 2 ** (bits - 1):
+                d -= 2 ** bits
+            if d < 0 and d != -(2 ** (bits - 1)):                     # np.abs of the most negative value stays negative
+                d = -d
+        out = d if out is None or d > out else out
+    return out
+
+
+def _n1(c):
+    """EXACTLY the requests on which C15-N1 shows: old path of tensor.issymmetric (version given or details requested), the size
+    check passed, stored array of logical type and some within-group rearrangement changes it (TypeError), or of an integer type
+    in which the largest |difference| under some rearrangement is reported differently after wrap-around (details requested)"""
+    a = c.args
+    if c.op != "issymmetric" or (a["version"] is None and not a["details"]):
+        return False
+    dt = eff_dtype(a)
+    if dt is None or DTYPES.get(dt) is None:
+        return False
+    shape, groups, data = a["shape"], groups_of(a), [int(x) for x in a["data"]]
+    if any(len({shape[m] for m in g}) != 1 for g in groups):
+        return False
+    bits, signed = DTYPES[dt]
+    subs = tgen.all_subs(shape)
+    pos = {tuple(s_): k for k, s_ in enumerate(subs)}
+    N = len(shape)
+    for g in groups:
+        for p_ in itertools.permutations(g):
+            perm = list(range(N))
+            for m, v in zip(g, p_):
+                perm[m] = v
+            pairs = []
+            for i in subs:
+                j = [0] * N
+                for k in range(N):
+                    j[perm[k]] = i[k]
+                pairs.append((data[pos[tuple(i)]], data[pos[tuple(j)]]))
+            if all(x == y for x, y in pairs):
+                continue
+            if dt == "bool":
+                return True
+            if a["details"] and _np_abs_max_wrapped(pairs, bits, signed) != max(abs(x - y) for x, y in pairs):
+                return True
+    return False
+
+
+def _wit_n1():
+    import numpy as np
+    import pyttb as ttb
+    B = ttb.tensor(np.array([[1.0, 2.0], [0.0, 4.0]])) > 0.5          # a logical tensor, not symmetric
+    try:
+        r = B.issymmetric(version=1)
+    except TypeError as ex:
+        return f"(X > 0.5).issymmetric(version=1) raises TypeError: {str(ex)[:80]}"
+    if r is not False:
+        return f"(X > 0.5).issymmetric(version=1) answered {r} on a non-symmetric logical tensor"
+    U = ttb.tensor(np.array([[1, 200], [100, 4]], dtype=np.uint8))
+    d = U.issymmetric(version=1, return_details=True)[1]
+    if float(np.max(d)) != 100.0:
+        return f"uint8 tensor [[1,200],[100,4]]: the reported largest difference is {float(np.max(d))}, the true one is 100"
+    return None
+
+
+# known finding C15-N2 (wave 5): NEW symmetrize sums the classes with numpy_groupies.aggregate, whose accumulator type is derived
+# from the element type: float32 for uint64 data
+def _n2(c):
+    a = c.args
+    return (c.op == "symmetrize" and a["version"] is None and eff_dtype(a) == "uint64" and max(int(x) for x in a["data"]) >= 2 ** 24
+            and not is_sym(a["shape"], a["data"], groups_of(a)))
+
+
+def _wit_n2():
+    import numpy as np
+    import pyttb as ttb
+    A = np.array([[623645800123, 971246110324, 1099511627776], [1099511627776, 3, 0], [733086958055, 1099511627776, 591631255773]],
+                 dtype=np.uint64)
+    S = ttb.tensor(A).symmetrize()
+    if float(S.data[0, 0]) != 623645800123.0 or float(S.data[0, 1]) != 1035378869050.0:
+        return (f"uint64 3x3 tensor: symmetrize() returns [0,0] = {float(S.data[0, 0])!r} (input 623645800123, unchanged by the average) and "
+                f"[0,1] = {float(S.data[0, 1])!r} (average 1035378869050); symmetrize(version=1) is exact")
+    return None
+
+
+TRIGGERS = {"old_issymmetric_subtracts_in_element_type": _n1, "new_symmetrize_uint64_sums_in_float32": _n2}
+WITNESSES = {"C15-N1": _wit_n1, "C15-N2": _wit_n2}
